@@ -94,6 +94,8 @@ def check(ctx, case):
         return fail('bool', overload='b', generic=r.gets('g.bool'), direct=r.gets('b'))
     if not same_num(unbits(r.gets('n')), unbits(r.gets('g.num'))):
         return fail('number', overload='n', generic=repr(unbits(r.gets('g.num'))), direct=repr(unbits(r.gets('n'))))
+    if r.has('s.prefixlost'):
+        return fail('string-overload-does-not-append', overload='s', direct=r.gets('s'))
     gs = r.gets('g.str')
     for k in ('g.str2', 'g.str3', 's', 'c'):
         if r.gets(k) != gs:
